@@ -256,3 +256,225 @@ Example c04_source_advance_nonvacuous :
   = Some [[Some ([1; 0; 1]%Z, 3, (-65)%Z, 0); Some ([1; 0; 0]%Z, 3, (-67)%Z, 0); Some ([0; 0]%Z, 2, (-130)%Z, 1)];
           [Some ([1; 1; 1]%Z, 3, (-4)%Z, 1); Some ([1; 1; 0]%Z, 3, (-7)%Z, 1); None]].
 Proof. exact Tie.ex_nonvacuous_src. Qed.
+
+(* ---- the SECOND tie to the source text (BeamSearch.forward, _to_width, update_log_probs_for_step) ---------------------
+   PV.Gen.C04BSrc is regenerated from /repo/src/pydrobert/torch/_decoding.py on every run: tw_body (= _to_width, whole),
+   ulp_body (= update_log_probs_for_step, whole) and marked statement blocks of forward(): fw_init (everything before the
+   loop), fw_t, fw_mask_on / fw_mask_off (the eos_mask / done_mask computation), fw_rest (`y_prev_ = ...` up to
+   `prev_width = self.width`: LM call, eos mass re-allocation, the call of beam_search_advance, length decrement, state
+   re-ordering, the freeze through _to_width / torch.where), fw_final (epilogue).  The loop contains `break`, which MiniPy has
+   no constructor for: `for t in range(max_iters)`, the test `if self.eos is not None and t` and `if done_mask.all(): break`
+   are HAND-WRITTEN in SrcRunB.fw_iter / src_loop (theorems that depend on them are named _partial).  SrcRunB.extB: calls of
+   beam_search_advance / self._to_width / self.update_log_probs_for_step RUN the translated callee (under SrcRun.ext04); the
+   language model (calc_idx_log_probs + log_softmax, extract_by_src, update_input) is an oracle [calc] as in Model.v; tensor
+   operations = PV.MiniTorch.OpsC04 + OpsC04B.  The theorems below are the layer "interpreted source = straight-line tensor
+   program, for EVERY tensor of the stated rank and every oracle" (TieRunB.simc/simv/simi: same results, RuntimeError together,
+   outside the modelled domain together) + `_to_width` against Model.to_width on full-width beams; the algebra that evaluates
+   TieIterB.iter_tensor on the encoding of a model state to the encoding of Model.step is NOT proved (notes/C04_tie_report.md);
+   the harness evaluates SrcRunB.src_search_check / src_search_agrees (interpreted source vs torch, and vs Model.search
+   exactly) on the search cases of every run. *)
+From PV Require MiniTorch.OpsC04B Gen.C04BSrc C04.SrcRunB C04.TieRunB C04.TieIterB C04.TieB.
+
+(* BeamSearch._to_width (whole function), any 3-D y_prev, any log_probs_prev / y_prev_lens: the tensor program TieRunB.tw_tensor
+   (pad with -inf / 0 columns; or topk + gather by source index; or nothing) *)
+Theorem c04_source_to_width_is_tensor_program : forall V width eos fin_all pad y lpp lens S N pw,
+  OpsC04.vshape y = [S; N; pw] ->
+  TieRunB.simv TieRunB.is3
+    (Interp.run SrcRun.ext04 C04BSrc.tw_body
+       (combine C04BSrc.tw_body_params [SrcRunB.self_val V width eos fin_all pad; SrcRun.encv y; SrcRun.encv lpp; SrcRun.encv lens]))
+    (TieRunB.tw_tensor (Z.of_nat width) y lpp lens).
+Proof. exact TieRunB.run_is_tw. Qed.
+Print Assumptions c04_source_to_width_is_tensor_program.
+
+(* COMPOSED with Model.to_width: on beams that already have [width] slots per element (every call made from the loop) the
+   interpreted _to_width returns the tensors that encode Model.to_width's beams *)
+Theorem c04_source_to_width_is_model_full : forall V width eos fin_all pad S beams,
+  Forall (fun row => length row = width) beams ->
+  exists st, Interp.run SrcRun.ext04 C04BSrc.tw_body (TieB.tw_vars V width eos fin_all pad S width beams)
+             = Interp.Ok (TieB.enc_beams S width (map (to_width topk_stable width S) beams)) st.
+Proof. exact TieB.to_width_tie_full. Qed.
+Print Assumptions c04_source_to_width_is_model_full.
+
+(* BeamSearch.update_log_probs_for_step (whole function) returns its first two tensor arguments *)
+Theorem c04_source_update_log_probs_is_identity : forall self a b c d e,
+  Interp.run SrcRun.ext04 C04BSrc.ulp_body (combine C04BSrc.ulp_body_params [self; a; b; c; d; e])
+  = Interp.Ok (Syntax.VTuple [a; b]) (Interp.mkState (combine C04BSrc.ulp_body_params [self; a; b; c; d; e]) []).
+Proof. exact TieRunB.run_is_ulp. Qed.
+Print Assumptions c04_source_update_log_probs_is_identity.
+
+(* the eos_mask / done_mask block (eos set, t > 0): permute, gather at (len - 1).clamp(min = 0), == eos, & (len > 0);
+   all(1, keepdim) or [..., :1] - and nothing else changes ([TieRunB.masks_post]) *)
+Theorem c04_source_mask_on_is_tensor_program : forall calc isv bsv miv is0 V width eos fin_all pad N ev e pw y prev lpp lens pady rest tv,
+  eos = Some e -> Interp.lookup TieIterB.v_t rest = Some tv ->
+  TieRunB.simc (TieRunB.masks_post isv bsv miv is0 V width eos fin_all pad N ev pw y prev lpp lens pady tv)
+    (Interp.exec (SrcRunB.extB calc) C04BSrc.fw_mask_on
+       (Interp.mkState (TieRunB.live isv bsv miv is0 V width eos fin_all pad N pw y prev lpp lens pady rest) ev))
+    (TieRunB.mask_on_tensor fin_all e y lens).
+Proof. exact TieRunB.mask_on_run. Qed.
+Print Assumptions c04_source_mask_on_is_tensor_program.
+
+Theorem c04_source_mask_off_is_tensor_program : forall calc isv bsv miv is0 V width eos fin_all pad N ev pw y prev lpp lens pady rest tv,
+  Interp.lookup TieIterB.v_t rest = Some tv ->
+  TieRunB.simc (TieRunB.masks_post isv bsv miv is0 V width eos fin_all pad N ev pw y prev lpp lens pady tv)
+    (Interp.exec (SrcRunB.extB calc) C04BSrc.fw_mask_off
+       (Interp.mkState (TieRunB.live isv bsv miv is0 V width eos fin_all pad N pw y prev lpp lens pady rest) ev))
+    (TieRunB.mask_off_tensor N pw).
+Proof. exact TieRunB.mask_off_run. Qed.
+Print Assumptions c04_source_mask_off_is_tensor_program.
+
+(* the rest of the loop body, for every 3-D y_prev, every other tensor, every LM oracle: TieRunB.rest_tensor - clamp, LM call,
+   eos re-allocation (realloc_tensor), the tensor program of beam_search_advance (TieRun.adv_tensor: the callee's translated
+   text is run), pad row, length decrement, arange + next_src, extract_by_src, the freeze (freeze_tensor, through tw_tensor),
+   and the new persistent variables ([TieRunB.rest_post]: y_prev, y_prev_lens, log_probs_prev, prev, prev_width = width) *)
+Theorem c04_source_rest_is_tensor_program : forall calc isv bsv miv is0 V width eos fin_all pad N ev pw tv mask done y lpp lens pady prev rest a b c,
+  OpsC04.vshape y = [a; b; c] ->
+  Interp.lookup TieIterB.v_t rest = Some (SrcRun.encv tv) ->
+  Interp.lookup TieIterB.v_eos_mask rest = Some (SrcRun.encv mask) ->
+  Interp.lookup TieIterB.v_done_mask rest = Some (SrcRun.encv done) ->
+  TieRunB.simc (TieRunB.rest_post isv bsv miv is0 V width eos fin_all pad N ev pady)
+    (Interp.exec (SrcRunB.extB calc) C04BSrc.fw_rest
+       (Interp.mkState (TieRunB.live isv bsv miv is0 V width eos fin_all pad N pw y prev lpp lens pady rest) ev))
+    (TieRunB.rest_tensor calc V width eos N pw tv mask done y lpp lens pady prev).
+Proof. exact TieRunB.rest_run. Qed.
+Print Assumptions c04_source_rest_is_tensor_program.
+
+(* one iteration of the loop = the hand-written glue SrcRunB.fw_iter over the translated blocks, from ANY variable state whose
+   persistent part is [live ...] (whatever earlier iterations left in the other variables): TieIterB.iter_tensor; `break` = the
+   signal "$break" with the persistent variables unchanged *)
+Theorem c04_source_iteration_is_tensor_program_partial : forall calc isv bsv miv is0 V width eos fin_all pad N ev tz pw y prev lpp lens pady rest a b c,
+  OpsC04.vshape y = [a; b; c] ->
+  TieIterB.simi (TieRunB.rest_post isv bsv miv is0 V width eos fin_all pad N ev pady)
+    (TieIterB.same_post isv bsv miv is0 V width eos fin_all pad N ev pw y prev lpp lens pady)
+    (Interp.exec (SrcRunB.extB calc) SrcRunB.fw_iter
+       (Interp.mkState (TieRunB.live isv bsv miv is0 V width eos fin_all pad N pw y prev lpp lens pady
+                          (Interp.update TieIterB.v_t (Syntax.VInt tz) rest)) ev))
+    (TieIterB.iter_tensor calc V width eos fin_all N tz pw y lpp lens pady prev).
+Proof. exact TieIterB.iter_run. Qed.
+Print Assumptions c04_source_iteration_is_tensor_program_partial.
+
+(* the epilogue: _to_width, the squeezes when batch_size is None, the returned triple (y, y_lens, log_probs) *)
+Theorem c04_source_final_is_tensor_program : forall calc isv bsv miv is0 V width eos fin_all pad N ev (batched : bool) pw y prev lpp lens pady rest a b c z,
+  bsv = (if batched then Syntax.VInt z else Syntax.VNone) -> OpsC04.vshape y = [a; b; c] ->
+  TieRunB.simc TieIterB.returns
+    (TieIterB.as_normal
+       (Interp.exec (SrcRunB.extB calc) C04BSrc.fw_final
+          (Interp.mkState (TieRunB.live isv bsv miv is0 V width eos fin_all pad N pw y prev lpp lens pady rest) ev)))
+    (TieIterB.final_tensor width batched y lpp lens).
+Proof. exact TieIterB.final_run. Qed.
+Print Assumptions c04_source_final_is_tensor_program.
+
+(* non-vacuity: the whole interpreted forward() (fw_init, the hand-written loop over fw_t / masks / fw_rest, fw_final) on the
+   instance of c04_nonvacuous (stateful LM, two elements finishing at different steps, width 2, eos 1, 3 steps) IS the model's
+   search (vm_compute) *)
+Example c04_source_search_partial_nonvacuous :
+  SrcRunB.src_search ex_lm 2 2 (Some 1%Z) true (-100)%Z 3 false true [0%Z; 1%Z]
+  = Some (search topk_stable ex_lm 0%Z 2 2 (Some 1%Z) true (-100)%Z 3 [0%Z; 1%Z]).
+Proof. exact TieB.ex_search_src. Qed.
+
+(* second tie, layer 2 for the eos_mask / done_mask block: on the tensors that ENCODE the model's beams (any batch size, any
+   beam width >= 1, height >= 1, lengths within the height, step t > 0, eos set) the interpreted block leaves the persistent
+   variables as they are and binds eos_mask[n, k] = Model.eos_at of slot (n, k) and done_mask[n, 0] = Model.done_of of beam n
+   (finish_all_paths: all slots finished; else: the best slot finished) *)
+From PV Require MiniTorch.LemmasC04B C04.TieMaskB.
+
+Theorem c04_source_mask_on_is_model : forall calc isv bsv miv is0 V width fin_all pad ev e t S pw beams prev lpp pady rest tv,
+  t <> 0 -> 1 <= S -> 1 <= pw ->
+  Forall (fun row => length row = pw) beams -> Forall (Forall (fun s => len s <= S)) beams ->
+  Interp.lookup TieIterB.v_t rest = Some tv ->
+  let N := length beams in
+  exists rest',
+    Interp.exec (SrcRunB.extB calc) C04BSrc.fw_mask_on
+      (Interp.mkState (TieRunB.live isv bsv miv is0 V width (Some e) fin_all pad N pw (SrcRun.enc_y S N pw beams) prev lpp
+                         (SrcRun.enc_lens N pw beams) pady rest) ev)
+    = Interp.Ok Interp.CNormal
+      (Interp.mkState (TieRunB.live isv bsv miv is0 V width (Some e) fin_all pad N pw (SrcRun.enc_y S N pw beams) prev lpp
+                         (SrcRun.enc_lens N pw beams) pady rest') ev)
+    /\ Interp.lookup TieIterB.v_eos_mask rest'
+       = Some (SrcRun.encv (OpsC04.tabv2 N pw (fun n k => Syntax.VBool (eos_at (Some e) t (TieMaskB.slot_at beams n k)))))
+    /\ Interp.lookup TieIterB.v_done_mask rest'
+       = Some (SrcRun.encv (OpsC04.tabv2 N 1 (fun n _ => Syntax.VBool (done_of (Some e) fin_all t (nth n beams [])))))
+    /\ Interp.lookup TieIterB.v_t rest' = Some tv.
+Proof. exact TieMaskB.mask_on_tie. Qed.
+Print Assumptions c04_source_mask_on_is_model.
+
+(* COMPOSED with the model-side lemma Refine.eos_at_pfin, so that it speaks about the paths only: the mask tensor the
+   interpreted source binds marks exactly the slots whose VALID path (vpath: the first y_lens cells of the column) is
+   non-empty and ends in eos, at every step t > 0 (Abstract.pfin) *)
+Theorem c04_source_mask_marks_finished_paths : forall e t pw beams,
+  Forall (Forall (fun s => len s <= length (col s))) beams ->
+  OpsC04.tabv2 (length beams) pw (fun n k => Syntax.VBool (eos_at (Some e) t (TieMaskB.slot_at beams n k)))
+  = OpsC04.tabv2 (length beams) pw (fun n k => Syntax.VBool (pfin (Some e) t (vpath (TieMaskB.slot_at beams n k)))).
+Proof. exact TieMaskB.mask_on_marks_finished_paths. Qed.
+Print Assumptions c04_source_mask_marks_finished_paths.
+
+(* second tie, layer 2 for the `break`: one interpreted iteration (hand-written glue SrcRunB.fw_iter over the translated blocks
+   fw_t and fw_mask_on) at a step t > 0 with eos set, from ANY variable state whose persistent part encodes the model's state
+   b, ends with the break signal and the persistent variables unchanged EXACTLY when Model.step answers None (every batch
+   element done); otherwise it does not break *)
+From PV Require C04.TieBreakB.
+
+Theorem c04_source_break_is_model_partial : forall calc isv bsv miv is0 V width fin_all pad ev e t S (b : @bstate Z) lpp pady rest,
+  t <> 0 -> 1 <= S -> 1 <= pw b ->
+  Forall (fun row => length row = pw b) (beams b) -> Forall (Forall (fun s => len s <= S)) (beams b) ->
+  let N := length (beams b) in
+  let st := Interp.mkState (TieRunB.live isv bsv miv is0 V width (Some e) fin_all pad N (pw b) (SrcRun.enc_y S N (pw b) (beams b))
+                              (prev b) lpp (SrcRun.enc_lens N (pw b) (beams b)) pady
+                              (Interp.update TieIterB.v_t (Syntax.VInt (Z.of_nat t)) rest)) ev in
+  match step topk_stable calc 0%Z V width (Some e) fin_all pad t b with
+  | None => exists rest', Interp.exec (SrcRunB.extB calc) SrcRunB.fw_iter st
+                          = Interp.Exc SrcRunB.break_signal
+                              (Interp.mkState (TieRunB.live isv bsv miv is0 V width (Some e) fin_all pad N (pw b)
+                                                 (SrcRun.enc_y S N (pw b) (beams b)) (prev b) lpp
+                                                 (SrcRun.enc_lens N (pw b) (beams b)) pady rest') ev)
+  | Some _ => forall st', Interp.exec (SrcRunB.extB calc) SrcRunB.fw_iter st <> Interp.Exc SrcRunB.break_signal st'
+  end.
+Proof. exact TieBreakB.break_tie_step. Qed.
+Print Assumptions c04_source_break_is_model_partial.
+
+(* second tie, layer 2 for the prologue: the block fw_init (everything before the loop) interpreted on
+   forward(initial_state = the LM states [inits], batch_size = len(inits), max_iters = m) yields exactly the variables that encode
+   Model.init_b - one empty prefix of score 0 per batch element, height 0, prev_width 1, the given states - and pad_y *)
+From PV Require C04.TieInitB.
+
+Theorem c04_source_init_is_model : forall calc V width eos fin_all pad (inits : list Z) m,
+  let N := length inits in
+  Interp.exec (SrcRunB.extB calc) C04BSrc.fw_init
+    (Interp.mkState (SrcRunB.init_vars (SrcRunB.self_val V width eos fin_all pad) inits (OpsC04.vnat N) (OpsC04.vnat m)) [])
+  = Interp.Ok Interp.CNormal
+      (Interp.mkState
+         (TieRunB.live (SrcRunB.enc_states inits) (OpsC04.vnat N) (OpsC04.vnat m) (SrcRunB.enc_states inits) V width eos fin_all pad
+            N 1 (SrcRun.enc_y 0 N 1 (beams (init_b inits))) inits (SrcRun.enc_lpp N 1 (beams (init_b inits)))
+            (SrcRun.enc_lens N 1 (beams (init_b inits))) (OpsC04.tabv3 1 N width (fun _ _ _ => Syntax.VInt pad)) []) []).
+Proof. exact TieInitB.init_tie. Qed.
+Print Assumptions c04_source_init_is_model.
+
+(* ... and the else branch (t = 0 or eos unset): eos_mask / done_mask all False = Model.eos_at / done_of there, for any tensors *)
+Theorem c04_source_mask_off_is_model : forall calc isv bsv miv is0 V width eos fin_all pad ev t pw (beams : list (list slot)) y prev lpp lens pady rest tv,
+  (eos = None \/ t = 0) -> 1 <= pw -> Interp.lookup TieIterB.v_t rest = Some tv ->
+  let N := length beams in
+  exists rest',
+    Interp.exec (SrcRunB.extB calc) C04BSrc.fw_mask_off
+      (Interp.mkState (TieRunB.live isv bsv miv is0 V width eos fin_all pad N pw y prev lpp lens pady rest) ev)
+    = Interp.Ok Interp.CNormal (Interp.mkState (TieRunB.live isv bsv miv is0 V width eos fin_all pad N pw y prev lpp lens pady rest') ev)
+    /\ Interp.lookup TieIterB.v_eos_mask rest'
+       = Some (SrcRun.encv (OpsC04.tabv2 N pw (fun n k => Syntax.VBool (eos_at eos t (TieMaskB.slot_at beams n k)))))
+    /\ Interp.lookup TieIterB.v_done_mask rest'
+       = Some (SrcRun.encv (OpsC04.tabv2 N 1 (fun n _ => Syntax.VBool (done_of eos fin_all t (nth n beams [])))))
+    /\ Interp.lookup TieIterB.v_t rest' = Some tv.
+Proof. exact TieMaskB.mask_off_tie. Qed.
+Print Assumptions c04_source_mask_off_is_model.
+
+(* second tie, layer 2 for the epilogue (batch_size given) on width-wide beams - the state after any iteration of the loop:
+   the interpreted block returns (y, y_lens, log_probs) = the tensors that encode the beams Model.search returns *)
+Theorem c04_source_final_is_model_full : forall calc isv miv is0 V width eos fin_all pad ev S beams prev pady rest pw0 z,
+  Forall (fun row => length row = width) beams ->
+  let N := length beams in
+  let beams' := map (to_width topk_stable width S) beams in
+  exists st',
+    Interp.exec (SrcRunB.extB calc) C04BSrc.fw_final
+      (Interp.mkState (TieRunB.live isv (Syntax.VInt z) miv is0 V width eos fin_all pad N pw0 (SrcRun.enc_y S N width beams) prev
+                         (SrcRun.enc_lpp N width beams) (SrcRun.enc_lens N width beams) pady rest) ev)
+    = Interp.Ok (Interp.CReturn (Syntax.VTuple [SrcRun.encv (SrcRun.enc_y S N width beams'); SrcRun.encv (SrcRun.enc_lens N width beams');
+                                                SrcRun.encv (SrcRun.enc_lpp N width beams')])) st'.
+Proof. exact TieB.final_tie_full. Qed.
+Print Assumptions c04_source_final_is_model_full.
